@@ -216,6 +216,9 @@ def run(ctx):
     _axes_and_history(ctx, r7, repo, prs)
     r8 = ctx.rule("C03.R8", "LOOPER: the loop that applies a scalar reference formula cell by cell (_slow_interpolator_looper) interpreted twice in one process with two DIFFERENT formulas of one qualified name (two reference objects of one class, e.g. code 4 with another alpha0) on the same inputs: result[set][histogram][alpha][bin] is THIS formula applied to that bin's (down, nominal, up) and that set's alpha", "LOOPER", floor=2)
     _looper(ctx, r8, repo)
+    r9 = ctx.rule("C03.R9", "GATE (interpreted, engine shared with C01.R11): the interpolated factor / shift reaches the rate only where the builder's mask is set: _nominal_and_modifiers_from_spec with the real normsys / histosys builders sets the mask wherever the sample declares the modifier -- a one-sided variation (lo exactly 1) included -- and hands each applier the interpolation code of THIS model's settings", "GATE", floor=5)
+    from .c01 import _build_end_to_end, registry
+    _build_end_to_end(ctx, r9, registry(repo))
     r4 = ctx.rule("C03.R4", "FOLD: each A_inverse literal times the defining matrix (rows f(a0), f(-a0), f'(a0), f'(-a0), f''(a0), f''(-a0) of sum a_i alpha^i) is the identity, symbolically in alpha0; rhs vector is [u^a0-1, d^a0-1, ln u u^a0, -ln d d^a0, ln^2 u u^a0, ln^2 d d^a0]", "FOLD", floor=2)
 
     kinds = {}
